@@ -63,6 +63,15 @@ static void bin_path (char *out, size_t n, const char *progname)
     out[l - 1] = 'b';
 }
 
+/* Virtual times of the case language (mtime / now / the sv lines) are VH_T0 + t on the file system and in current_time,
+   so that the driver's own clock (object load times) and the files live on one time line and current_time never moves
+   backwards; everything printed is the virtual value again. */
+static int set_mtime (const char *path, long t);
+static int set_vmtime (const char *path, long t)
+{
+  return set_mtime (path, VH_T0 + t);
+}
+
 static int set_mtime (const char *path, long t)
 {
   struct timespec ts[2];
@@ -99,7 +108,7 @@ void save_binary (program_t * prog, mem_block_t * includes, mem_block_t * patche
       incs[0] = 0;
       for (char *q = includes->block; q && q < includes->block + includes->current_size; q += strlen (q) + 1)
         o += snprintf (incs + o, sizeof incs - o, "%s%s", o ? "," : "", q);
-      set_mtime (path, vnow);
+      set_vmtime (path, vnow);
       vh_out ("sv %s %ld inc=%s", prog->name, vnow, incs[0] ? incs : "-");
       vnow++;
       if (s >= 0)
@@ -607,13 +616,15 @@ static int sys_cmd (char *line)
   if (!strcmp (tok[0], "mtime") && n == 3)
     {
       const char *pth = rel (tok[1]);
-      if (!pth || set_mtime (pth, atol (tok[2])) == -1)
+      if (!pth || set_vmtime (pth, atol (tok[2])) == -1)
         vh_out ("mtime-error %s", tok[1]);
       return 1;
     }
   if (!strcmp (tok[0], "now") && n == 2)
     {
       vnow = atol (tok[1]);
+      if (VH_T0 + vnow > current_time)
+        current_time = VH_T0 + vnow;	/* objects loaded from now on have this load time */
       return 1;
     }
   if (!strcmp (tok[0], "intern"))
@@ -636,7 +647,7 @@ static int sys_cmd (char *line)
         safe_destruct (tok[i]);
       remove_destructed_objects ();
       init_binaries ();
-      vh_out ("restarted %llu", (unsigned long long) config_id);
+      vh_out ("restarted %llu", (unsigned long long) (config_id >= VH_T0 && config_id < REAL_T ? config_id - VH_T0 : config_id));
       return 1;
     }
   if (!strcmp (tok[0], "corrupt") && n >= 4)
